@@ -135,9 +135,9 @@ PROPS.update({
         assumptions=[S_REAL, "the replication domain of a stream starts at its first registration without a position (latest) or at the start position it was first given"],
     ),
     "C06": dict(
-        rig="S", residual_nondeterminism=True, variants=["etcd", "mysql"], runs=dict(quick=2400, thorough=40000), panic_is_violation=True,
+        rig="S", residual_nondeterminism=True, mix=[("S", "etcd"), ("S", "mysql"), ("S", "etcd"), ("S", "mysql"), ("R", "")], runs=dict(quick=2400, thorough=40000), panic_is_violation=True,
         nontrivial_probes=["task_paused_by_failure", "liveness_checked", "rejected_write_checked"],
-        must_hit=["task_paused_by_failure", "liveness_checked", "rejected_write_checked"],
+        must_hit=["task_paused_by_failure", "liveness_checked", "rejected_write_checked", "R_unknown_partition_reported"],
         rule="Same scenarios as C05 without crashes; the first-acknowledgement order per stream must be gap-free, a Paused task must show a reason, tasks end Paused only if a failure was injected, the four state views agree at the end, and the process must survive.",
         assumptions=[S_REAL, "a panic of the child process counts as a violation"],
     ),
